@@ -300,7 +300,7 @@ func c17AddrCases(seed uint64, batch, n int, own *chaincfg.Params) []addrCase {
 			}
 		}
 		out = append(out, addrCase{string(mixed), nil, 0, "bech32-mixed-case"})
-		out = append(out, addrCase{strings.ToUpper(good), append([]byte{0x00, 0x14}, h20...), 2, "bech32-all-uppercase"})
+		out = append(out, addrCase{strings.ToUpper(good), append([]byte{0x00, 0x14}, h20...), 1, "bech32-all-uppercase"}) // BIP173: decoders accept either case (not mixed); the script is the same
 		out = append(out, addrCase{encSegwit(own.Bech32HRPSegwit, 0, h20[:19], false), nil, 0, "v0-program-19-bytes"})
 		out = append(out, addrCase{encSegwit(own.Bech32HRPSegwit, 2, h32, true), nil, 2, "future-witness-version"})
 		p := base58.CheckEncode(h20, own.PubKeyHashAddrID)
@@ -530,7 +530,7 @@ func init() {
 		Rule: "cases 0-7: round trips over random keys (both types), EVM addresses, magic prefixes and the 4 networks: address (and data output) from the builders, script rebuilt by hand from the bech32 program, verifier must accept it and refuse another key, the same secret under the other key type, another EVM address (one bit), another magic, every single-bit mutation and every opcode substitution (other witness versions, push lengths, OP_RETURN) of every script byte, truncations and the other version's outputs; v1 must be refused for schnorr keys. " +
 			"cases 8-15: address strings with ground truth (P2PKH/P2SH/P2WPKH/P2WSH/P2TR on all 4 networks, bech32/bech32m mix-ups, checksum mutations, mixed case, short programs, pay-to-pubkey hex, junk) against DecodeBtcAddress: exact hand-built script or refusal; foreign = other bech32 prefix or other base58 version byte. " +
 			"cases 16-23: the same through the application on each network and key type: Query/DepositAddress answers verified, withdrawal requests end pending or cancelled with exactly one refund. Non-trivial = every judged address; distinct = (kind, network, verdict).",
-		Assume: []string{"btcutil's bech32/base58 codecs and btcec are correct (used to generate and to take apart address strings)", "all-uppercase bech32 and future witness versions are not judged"},
+		Assume: []string{"btcutil's bech32/base58 codecs and btcec are correct (used to generate and to take apart address strings)", "all-uppercase bech32 strings are standard spellings (BIP173) and must decode; future witness versions are not judged"},
 		Cases:  func(tier string) int { return 24 },
 		Run: func(c *vc.Ctx, i int) {
 			switch {
